@@ -1,6 +1,6 @@
 (* C10 — runtime sizing parameters do not change program results.
    Only statements here; proofs live in Proofs/C10_Stack.v (and Proofs/C13_Refine.v). *)
-From Elk Require Import Base.GoSem Model.C10_Stack Proofs.C10_Stack Proofs.C13_Refine.
+From Elk Require Import Base.GoSem Model.C10_Stack Proofs.C10_Stack Proofs.C13_Refine Proofs.C13_Sim.
 Open Scope Z_scope.
 
 (* growValueStack (fixed formulas) is invisible: for every state whose pointers are slot
@@ -29,21 +29,28 @@ Theorem C10_grow_old_upvalue_refuted :
 Proof. exact grow_old_upvalue_visible. Qed.
 Print Assumptions C10_grow_old_upvalue_refuted.
 
-(* BOUNDED size/growth independence (finite statement, bound stated): two runs of the same
-   program of at most BOUND = 6 operations over the 23-operation alphabet - equal once the
-   growth steps are erased - from different base addresses and capacities, with growth steps
-   at different places and to different new bases, produce the same reads, provided both
-   satisfy the discipline D and never exceed their capacity.  The unbounded statement is NOT
-   proved (only C10_grow_invisible is unbounded). *)
-Theorem C10_run_indep_bounded : forall l1 l2,
-  (length l1 <= BOUND)%nat -> (length l2 <= BOUND)%nat ->
-  Forall (fun o => In o alphabet) l1 -> Forall (fun o => In o alphabet) l2 ->
+(* UNBOUNDED size/growth independence: two runs of the same program - operation sequences of
+   the fixed machine that are equal once the growth steps are erased - from ANY two base
+   addresses and ANY two initial capacities, with growth steps at different places and to
+   different new bases, produce the same reads, provided both satisfy the discipline D and never
+   push beyond their current capacity (i.e. the runtime grew the stack in time).  Via
+   C13_refines: both equal the reads of the store-semantics spec, which ignores growth. *)
+Theorem C10_run_indep : forall b1 c1 b2 c2 l1 l2, 0 <= c1 -> 0 <= c2 ->
+  forallb fixed_op l1 = true -> forallb fixed_op l2 = true ->
   filter no_grow l1 = filter no_grow l2 ->
   D init_sst l1 = true -> D init_sst l2 = true ->
-  fits_run (init_st 1000 4) l1 = true -> fits_run (init_st 777000 3) l2 = true ->
-  out (run (init_st 1000 4) l1) = out (run (init_st 777000 3) l2).
-Proof. exact run_indep_bounded. Qed.
-Print Assumptions C10_run_indep_bounded.
+  fits_run (init_st b1 c1) l1 = true -> fits_run (init_st b2 c2) l2 = true ->
+  out (run (init_st b1 c1) l1) = out (run (init_st b2 c2) l2).
+Proof. exact run_indep. Qed.
+Print Assumptions C10_run_indep.
+
+Example C10_run_indep_nonvacuous :
+  let l1 := [OPush 1; OPush 2; OCapture 1; OGrow 5000; OCall 1; OPush 3; OGetUp 0; ORet; OSetUp 0 9; OGetLocal 1; OGetUp 0] in
+  let l2 := [OPush 1; OPush 2; OCapture 1; OCall 1; OPush 3; OGrow 90000; OGetUp 0; ORet; OGrow 7; OSetUp 0 9; OGetLocal 1; OGetUp 0] in
+  filter no_grow l1 = filter no_grow l2 /\ D init_sst l1 = true /\ D init_sst l2 = true /\
+  fits_run (init_st 1000 2) l1 = true /\ fits_run (init_st 777000 3) l2 = true /\
+  out (run (init_st 1000 2) l1) = [9; 3; 2] /\ out (run (init_st 777000 3) l2) = [9; 3; 2].
+Proof. repeat split; vm_compute; reflexivity. Qed.
 
 Example C10_nonvacuous :
   GInv witness_two_frames /\
